@@ -226,6 +226,10 @@ struct Shape {
 	amt: Amt,
 	acct: Acct,
 	late: bool,
+	/// the sender reserves its outputs only when the reply is in, handing the (possibly altered)
+	/// reply itself to tx_lock_outputs, as the synchronous send does
+	#[serde(default)]
+	lock_with_reply: bool,
 }
 
 fn shapes(thorough: bool) -> Vec<Shape> {
@@ -234,22 +238,26 @@ fn shapes(thorough: bool) -> Vec<Shape> {
 		for late in [false, true].iter() {
 			for acct in [Acct::Default, Acct::Acct1Active, Acct::Acct1Src, Acct::Acct1SrcDefaultActive].iter() {
 				for amt in [Amt::Small, Amt::Exact, Amt::Split2].iter() {
-					v.push(Shape { amt: *amt, acct: *acct, late: *late });
+					v.push(Shape { amt: *amt, acct: *acct, late: *late, lock_with_reply: false });
+					if !*late && *acct != Acct::Acct1SrcDefaultActive {
+						v.push(Shape { amt: *amt, acct: *acct, late: false, lock_with_reply: true });
+					}
 				}
 			}
 		}
 		v
 	} else {
 		vec![
-			Shape { amt: Amt::Small, acct: Acct::Default, late: false },
-			Shape { amt: Amt::Exact, acct: Acct::Default, late: false },
-			Shape { amt: Amt::Split2, acct: Acct::Default, late: false },
-			Shape { amt: Amt::Small, acct: Acct::Acct1Active, late: false },
-			Shape { amt: Amt::Split2, acct: Acct::Acct1Src, late: false },
-			Shape { amt: Amt::Small, acct: Acct::Acct1SrcDefaultActive, late: false },
-			Shape { amt: Amt::Exact, acct: Acct::Acct1Active, late: false },
-			Shape { amt: Amt::Small, acct: Acct::Default, late: true },
-			Shape { amt: Amt::Split2, acct: Acct::Acct1Active, late: true },
+			Shape { amt: Amt::Small, acct: Acct::Default, late: false, lock_with_reply: false },
+			Shape { amt: Amt::Exact, acct: Acct::Default, late: false, lock_with_reply: false },
+			Shape { amt: Amt::Split2, acct: Acct::Default, late: false, lock_with_reply: false },
+			Shape { amt: Amt::Small, acct: Acct::Acct1Active, late: false, lock_with_reply: false },
+			Shape { amt: Amt::Split2, acct: Acct::Acct1Src, late: false, lock_with_reply: false },
+			Shape { amt: Amt::Small, acct: Acct::Acct1SrcDefaultActive, late: false, lock_with_reply: false },
+			Shape { amt: Amt::Exact, acct: Acct::Acct1Active, late: false, lock_with_reply: false },
+			Shape { amt: Amt::Small, acct: Acct::Default, late: false, lock_with_reply: true },
+			Shape { amt: Amt::Small, acct: Acct::Default, late: true, lock_with_reply: false },
+			Shape { amt: Amt::Split2, acct: Acct::Acct1Active, late: true, lock_with_reply: false },
 		]
 	}
 }
@@ -257,6 +265,8 @@ fn shapes(thorough: bool) -> Vec<Shape> {
 fn lock_mode(s: &Shape) -> &'static str {
 	if s.late {
 		"late-locked"
+	} else if s.lock_with_reply {
+		"locked-with-reply"
 	} else {
 		"locked-at-send"
 	}
@@ -353,7 +363,7 @@ fn prepare(dir: &str, base: &Snapshot, s: &Shape) -> Result<Snapshot, String> {
 			args.late_lock = Some(true);
 		}
 		let s1 = a.init_send(args).map_err(e)?;
-		if !s.late {
+		if !s.late && !s.lock_with_reply {
 			a.lock(&s1).map_err(e)?;
 		}
 		let s2 = b.receive(&s1, None).map_err(e)?;
@@ -413,6 +423,15 @@ fn run_finalize_inner(w: &World, s: &Shape, alt: Option<PAlt>) -> Result<String,
 		}
 	}
 	let mutated = Slate::from(v4);
+	if s.lock_with_reply {
+		// a refusal at this step is as good as one at finalization
+		if let Ok(Err(e)) = catch(|| a.lock(&mutated)) {
+			return match alt {
+				None => Err((format!("C11/honest-refused/{}", lock_mode(s)), format!("tx_lock_outputs refused the unaltered reply of {:?}: {}", s, e))),
+				Some(_) => Ok(format!("refused-at-lock:{}", err_class(&e))),
+			};
+		}
+	}
 	let res = catch(|| a.finalize(&mutated));
 	let aname = alt.map(|x| format!("{:?}", x)).unwrap_or_else(|| "honest".to_owned());
 	match res {
@@ -554,6 +573,9 @@ fn run_export_inner(w: &World, s: &Shape, only: Option<EAlt>) -> Result<ExportOu
 	let reply = slate_from_json(&p.s2);
 	let id: Uuid = reply.id;
 	let mut out = ExportOut { labels: vec![], problems: vec![], observations: vec![], sample: Value::Null };
+	if s.lock_with_reply {
+		a.lock(&reply).map_err(|e| mach(format!("honest lock with the reply failed: {}", e)))?;
+	}
 	let s3 = match a.finalize(&reply) {
 		Ok(s3) => s3,
 		Err(e) if s.acct == Acct::Acct1SrcDefaultActive => {
